@@ -220,7 +220,7 @@ func cmdCheck(args []string) {
 				exit = 2
 			}
 		}
-		if len(r.Violations) == 0 && len(r.Aborts) == 0 && !r.Truncated && r.Reach["end"] == 0 && r.Paths > 0 && len(r.Known) == 0 {
+		if len(r.Violations) == 0 && len(r.Aborts) == 0 && !r.Truncated && r.Reach["end"] == 0 && r.Reach["may-be-vacuous"] == 0 && r.Paths > 0 && len(r.Known) == 0 {
 			msg := fmt.Sprintf("%s%v: vacuous - no path reaches the end of the harness", in.hp.Fn, in.params)
 			notes = append(notes, "inconclusive: "+msg)
 			fmt.Println("INCONCLUSIVE " + msg)
